@@ -24,6 +24,13 @@ def ref(self, amount):
 NOINLINE = ("outlay", "transact", "update", "commission")
 
 
+def settings_reach_every_node(chk):
+    """whole-unit vs fractional sizing is decided by a flag that must reach every security of the tree"""
+    from . import tree_rules
+    core_rules.recursion_rules(chk, "C05", [("Node", "use_integer_positions", "integer_positions", False)])
+    tree_rules.settings_pushed_at_construction(chk, "C05")
+
+
 def run(chk):
     chk.explain("C05: structure of SecurityBase.allocate - zero amount is a no-op; the price and parent guards dominate sizing; the initial quantity (close-out shortcut, "
                 "direction-dependent rounding) equals a reference in normal form; the sizing loop is skipped only for the close-out; its test and its break condition are the "
@@ -188,3 +195,4 @@ def run(chk):
     chk.ob("C05.R8", ok, CORE, "SecurityBase.transact", "booking-uses-probed-cost", "the cost booked by a trade is computed by the same outlay() the sizing probed", where=T.fn.where)
     core_rules.transact_rules(chk, "C05")
     core_rules.refresh_before_trade(chk, "C05")
+    settings_reach_every_node(chk)
